@@ -7,16 +7,16 @@ Open Scope string_scope.
 
 (* ---- today's code does what the property demands whenever the tuple set is exactly the set of
         junction-reference columns of the net and pipe references live in valve.element ---- *)
-Theorem model_meets_spec_partial : forall ops n,
+Theorem model_meets_spec : forall ops n,
   (forall o, In o ops -> exact (cs_of o) n) -> pexact n -> exec model_sem ops n = exec spec_sem ops n.
 Proof. exact exec_model_eq_spec. Qed.
-Print Assumptions model_meets_spec_partial.
+Print Assumptions model_meets_spec.
 
 (* reindex_junctions = renaming rho on the junction index, its geodata / result index and EVERY junction reference *)
-Theorem reindex_is_renaming_partial : forall cs lk n, exact cs n ->
+Theorem reindex_is_renaming : forall cs lk n, exact cs n ->
   step model_sem (Reindex cs "junction" lk) n = rename "junction" (app_lk lk) kind_is_kj n.
 Proof. exact reindex_junction_is_rename. Qed.
-Print Assumptions reindex_is_renaming_partial.
+Print Assumptions reindex_is_renaming.
 
 (* reindex_pipes = renaming on the pipe index and the pipe references of pi valves *)
 Theorem reindex_pipes_is_renaming : forall cs lk n, pexact n ->
@@ -40,15 +40,18 @@ Definition swap_lookup : list (Z * Z) := [(0, 4); (1, 3); (2, 2); (3, 1); (4, 0)
 Example witness_is_intact : RI witness /\ ok model_sem (Reindex today_cs "junction" swap_lookup) witness = true.
 Proof. split; [apply ri_b_RI; vm_compute; reflexivity | vm_compute; reflexivity]. Qed.
 
-(* REFUTED on the current tree: with today's tuple set the valve's pipe label is run through the junction
-   lookup - the valve silently moves from pipe 1 to pipe 3 *)
-Theorem reindex_is_renaming_refuted : exists lk n, RI n /\ ok model_sem (Reindex today_cs "junction" lk) n = true /\
-  step model_sem (Reindex today_cs "junction" lk) n <> rename "junction" (app_lk lk) kind_is_kj n.
+(* the hypotheses hold for the witness WITH its pipe-attached valve and today's tuple set (since 4bbab2a), and the
+   valve stays on pipe 1 while its junction follows the lookup *)
+Example witness_is_exact :
+  exact today_cs witness /\ pexact witness /\
+  rows_of "valve" (step model_sem (Reindex today_cs "junction" swap_lookup) witness) =
+    [mkRow 0 [mkCell "element" KP 1; mkCell "junction" KJ 3]].
 Proof.
-  exists swap_lookup, witness. split; [apply witness_is_intact|]. split; [apply witness_is_intact|].
-  intro E. apply (f_equal (rows_of "valve")) in E. vm_compute in E. discriminate E.
+  split; [apply exact_b_exact; vm_compute; reflexivity|]. split; [|vm_compute; reflexivity].
+  intros tn r c Hr Hc. apply In_rows_of in Hr. destruct Hr as [t [Ht [<- Hr]]].
+  simpl in Ht. repeat (destruct Ht as [<- | Ht]; [simpl in Hr; repeat (destruct Hr as [<- | Hr]; [simpl in Hc;
+    repeat (destruct Hc as [<- | Hc]; [simpl; try discriminate; auto|]); contradiction|]); contradiction|]). contradiction.
 Qed.
-Print Assumptions reindex_is_renaming_refuted.
 
 (* composition with the inverse lookup is the identity *)
 Theorem rename_inverse_is_identity : forall e rho rho' k n,
@@ -92,12 +95,16 @@ Theorem no_dangling_junction_refs : forall ops n,
 Proof. intros. apply exec_RI_J; auto. exact model_sem_sane. Qed.
 Print Assumptions no_dangling_junction_refs.
 
-(* full integrity over sequences that also reindex / fuse / select - only for nets without pi valves *)
-Theorem no_dangling_partial : forall ops n,
-  plain n -> (forall o, In o ops -> cover_hyp model_sem o n) -> guards model_sem ops n ->
-  no_pipe_refs n -> RI n -> RI (exec model_sem ops n).
-Proof. intros. apply exec_RI_partial; auto. exact model_sem_sane. Qed.
-Print Assumptions no_dangling_partial.
+(* FULL STRENGTH (since 4bbab2a / bef9209): after ANY sequence of the operations neither a junction nor a pipe
+   reference dangles - pi valves, remote controlled junctions, select_subnet included.  Hypotheses: label-only tables
+   carry no cells, pipe references live in valve.element, the tuple sets cover the junction-reference columns; guards:
+   fuse target exists, drop_junctions with drop_elements=True, reindexed tables are junction / pipe / a table whose
+   family contains neither *)
+Theorem no_dangling : forall ops n,
+  plain n -> pexact n -> (forall o, In o ops -> cover_hyp model_sem o n) ->
+  guards model_sem ops n -> guards_p ops -> RI n -> RI (exec model_sem ops n).
+Proof. exact exec_RI_full. Qed.
+Print Assumptions no_dangling.
 
 (* FULL STRENGTH since drop_pipes cascades to the attached valves (bef9209): after any sequence of drop_pipes,
    drop_elements_at_junctions and drop_junctions(drop_elements=True) neither a junction nor a PIPE reference
@@ -112,19 +119,6 @@ Print Assumptions no_dangling_after_drops.
 Theorem drop_keeps_pipe_refs : forall o n, drop_op o = true -> pexact n -> RI_P n -> RI_P (step model_sem o n).
 Proof. intros o n Hd Hx H. destruct (pexact_model_coversP n Hx). now apply step_drop_RI_P. Qed.
 Print Assumptions drop_keeps_pipe_refs.
-
-(* REFUTED on the current tree: select_subnet keeps a pi valve whose pipe label happens to be a selected junction
-   label although its pipe is not selected *)
-Theorem no_dangling_refuted : exists n, RI n /\ pexact n /\
-  ok model_sem (Select today_cs [1%Z; 2%Z]) n = true /\ ~ RI (step model_sem (Select today_cs [1%Z; 2%Z]) n).
-Proof.
-  exists witness. split; [apply witness_is_intact|]. split.
-  - intros tn r c Hr Hc. apply In_rows_of in Hr. destruct Hr as [t [Ht [<- Hr]]].
-    simpl in Ht. repeat (destruct Ht as [<- | Ht]; [simpl in Hr; repeat (destruct Hr as [<- | Hr]; [simpl in Hc;
-      repeat (destruct Hc as [<- | Hc]; [simpl; try discriminate; auto|]); contradiction|]); contradiction|]). contradiction.
-  - split; [vm_compute; reflexivity|]. intros [_ HP]; revert HP; apply ri_pb_false; vm_compute; reflexivity.
-Qed.
-Print Assumptions no_dangling_refuted.
 
 (* frame: the dropping / selecting operations leave every remaining row unchanged ... *)
 Theorem frame_rows_unchanged : forall s o n tn r,
@@ -143,7 +137,7 @@ Print Assumptions frame_untouched_rows_kept.
 
 (* fuse_junctions: every junction reference to a fused junction becomes j1, nothing else changes, the fused
    junctions disappear (stated for the specification semantics; equal to the code under exactness by
-   model_meets_spec_partial) *)
+   model_meets_spec) *)
 Theorem fuse_redirects : forall cs j1 js n,
   (forall tn r', In r' (rows_of tn (step spec_sem (Fuse cs j1 js) n)) ->
      exists r, In r (rows_of tn n) /\ r_label r' = r_label r /\
@@ -154,28 +148,18 @@ Theorem fuse_redirects : forall cs j1 js n,
 Proof. intros. split; [intros tn r'; apply fuse_cells | intros l; apply fuse_junction_rows]. Qed.
 Print Assumptions fuse_redirects.
 
-Theorem fuse_redirects_partial : forall cs j1 js n, exact cs n -> pexact n ->
+Theorem fuse_redirects_code : forall cs j1 js n, exact cs n -> pexact n ->
   step model_sem (Fuse cs j1 js) n = step spec_sem (Fuse cs j1 js) n.
 Proof. intros. now apply step_model_eq_spec. Qed.
-Print Assumptions fuse_redirects_partial.
-
-(* REFUTED on the current tree: fusing junction 1 into 4 re-attaches the valve from pipe 1 to "pipe 4" *)
-Theorem fuse_redirects_refuted : exists n, RI n /\ ok model_sem (Fuse today_cs 4%Z [1%Z]) n = true /\
-  step model_sem (Fuse today_cs 4%Z [1%Z]) n <> step spec_sem (Fuse today_cs 4%Z [1%Z]) n /\
-  ~ RI (step model_sem (Fuse today_cs 4%Z [1%Z]) n).
-Proof.
-  exists witness. split; [apply witness_is_intact|]. split; [vm_compute; reflexivity|]. split.
-  - intro E. apply (f_equal (rows_of "valve")) in E. vm_compute in E. discriminate E.
-  - intros [_ HP]; revert HP; apply ri_pb_false; vm_compute; reflexivity.
-Qed.
-Print Assumptions fuse_redirects_refuted.
+Print Assumptions fuse_redirects_code.
 
 (* non-vacuity: without the valve the witness satisfies every hypothesis used above, for today's tuple set *)
 Example hypotheses_satisfiable :
   exact today_cs witness_no_valve /\ RI witness_no_valve /\
   ri_jb (exec model_sem [Reindex today_cs "junction" swap_lookup; Fuse today_cs 4%Z [3%Z]; DropJ today_cs [0%Z] true;
                          ContElem today_cs "junction" 5%Z] witness_no_valve) = true /\
-  exact_b today_cs witness = false.
+  ri_pb (exec model_sem [Reindex today_cs "junction" swap_lookup; Fuse today_cs 4%Z [1%Z]; Select today_cs [4%Z; 3%Z; 2%Z];
+                         ContElem today_cs "pipe" 5%Z; DropJ today_cs [2%Z] true] witness) = true.
 Proof.
   split; [apply exact_b_exact; vm_compute; reflexivity|].
   split; [apply ri_b_RI; vm_compute; reflexivity|]. split; vm_compute; reflexivity.
